@@ -629,7 +629,7 @@ Proof.
         intros x. split; [left; apply tw_of_set_todo|].
         cbn. unfold upd. eqb_cases x t; [right | left; reflexivity].
         split; [exact Hnt|]. intros o0. cbn. rewrite Etd. reflexivity. }
-      destruct ac as [| | | |b now|u]; cbn [fst snd] in *.
+      destruct ac as [| | | |b now|u|v]; cbn [fst snd] in *.
       * apply Hsame; rewrite Ha; reflexivity.
       * apply Hsame; rewrite Ha; reflexivity.
       * apply Hsame; rewrite Ha; reflexivity.
@@ -649,6 +649,7 @@ Proof.
            intros x. split; [left; apply tw_of_set_todo|].
            cbn. unfold upd. eqb_cases x t; [right | left; reflexivity].
            split; [exact Hnt|]. intros o0. cbn. rewrite Etd. reflexivity.
+      * apply Hsame; rewrite Ha; reflexivity.
       * apply Hsame; rewrite Ha; reflexivity.
     + (* helper: set_active_state reads the word *)
       assert (Hg : forall gg l', tasks gg = tasks (set_todo g t (HelperRun u)) -> ntasks gg = ntasks g ->
@@ -768,7 +769,7 @@ Proof.
     2-5: match goal with |- context [sub_step ?gg ?s] =>
            assert (Hs := sub_step_RInv gg ls a _ HI HR Ha I); cbn [sub_of with_sub] in Hs;
            destruct (sub_step gg s) as [g' s']; exact Hs end.
-    destruct acts as [|[| | | |b now|u] r]; cbn [fst snd] in *;
+    destruct acts as [|[| | | |b now|u|v] r]; cbn [fst snd] in *;
       try (same_tac HI HR; rewrite Ha; reflexivity).
     destruct now.
     + apply RInv_new with (g := g); auto; try reflexivity; try (rewrite Ha; reflexivity);
